@@ -1,4 +1,6 @@
 """C02 -- value encodings are byte-exact with Cassandra's type serializers (driver against spec.values)."""
+import os
+
 from hypothesis import strategies as st
 
 from vlib.harness import EnumPart, HarnessError, hyp_part
@@ -30,6 +32,9 @@ ASSUMPTIONS = [
     "a null element in a top-level collection on protocol v1/v2 has no representation and is outside the domain; so are vectors of collections on v1/v2 (no server speaks both)",
     "durations with components of mixed sign are not generated (rejected by Cassandra's validation, not a range question)",
 ]
+
+# the quick tier is ~15 s of single-core work; forking workers costs more than it saves
+SERIAL = os.environ.get("VERIF_TIER") == "quick"
 
 _BOUNDARY = {"int-boundary", "varint>=64bit", "non-bmp", "null-inside", "empty-collection", "v2-toplevel-collection",
              "ts-outside-1970-2038", "short-tuple", "float-special", "date-beyond-pydate", "decimal-big-exp", "duration-boundary",
@@ -333,9 +338,12 @@ def parts(tier):
     q = tier == "quick"
     return [
         hyp_part("forward", s_forward_quick if q else s_forward_thorough, interpret_forward, tier,
-                 quick=450, thorough=6000, quick_shards=4, thorough_shards=16),
+                 quick=450, thorough=6000, quick_shards=3, thorough_shards=16,
+                 # generator-degenerate guard (labels are shared with the backward part, so these are loose)
+                 floors={"has:vector": 0.03, "has:udt": 0.03, "has:map": 0.04, "has:set": 0.04, "f:null-inside": 0.035,
+                         "f:int-boundary": 0.025, "pv:v1-2": 0.06, "forward:exact": 0.1, "forward:exact-up-to-set-order": 0.03}),
         hyp_part("backward", s_backward_quick if q else s_backward_thorough, interpret_backward, tier,
-                 quick=450, thorough=6000, quick_shards=4, thorough_shards=16),
+                 quick=450, thorough=6000, quick_shards=3, thorough_shards=16),
         EnumPart("probes", _PROBE_CHUNKS, probe_cases, interpret_probe),
-        hyp_part("range", s_random_range, interpret_probe, tier, quick=400, thorough=4000, quick_shards=1, thorough_shards=4),
+        hyp_part("range", s_random_range, interpret_probe, tier, quick=300, thorough=4000, quick_shards=1, thorough_shards=4),
     ]
